@@ -89,6 +89,13 @@ theorem matchSM_noMatch_inv {root : State} {mg rd : Bool} {q : Req} {dom path : 
           cases h
           exact ⟨rfl, rfl, rfl, .inr ⟨r0, vs, rfl, by simpa using hm⟩⟩
 
+theorem aliasOutcome_cases (u d p : Str) :
+    aliasOutcome u d p = .error "AssertionError" ∨ aliasOutcome u d p = .redirect u := by
+  unfold aliasOutcome
+  split
+  · exact .inl rfl
+  · exact .inr rfl
+
 /-- `MapAdapter.match` returns normally only when the matcher did -/
 theorem matchAdapter_matched_inv {m : RMap} {a : Adapter} {p : Str} {meth : Option Str} {qa : QueryArgs} {ws : Option Bool}
     {r : Rule} {vals} (h : matchAdapter m a p meth qa ws = .matched r vals) :
@@ -99,7 +106,11 @@ theorem matchAdapter_matched_inv {m : RMap} {a : Adapter} {p : Str} {meth : Opti
   | requestPath p' => simp [hsm] at h
   | aliasRedirect r' v' =>
     simp only [hsm] at h
-    split at h <;> cases h
+    split at h
+    · cases h
+    · rename_i u _
+      rcases aliasOutcome_cases (if (effQa a qa).truthy = true then u ++ '?' :: encodeQueryArgs (effQa a qa) else u)
+        (domainPartOf m.cfg a) (pathPart p) with hh | hh <;> rw [hh] at h <;> cases h
   | noMatch ms wsm =>
     simp only [hsm] at h
     split at h
@@ -124,7 +135,11 @@ theorem matchAdapter_notFound_inv {m : RMap} {a : Adapter} {p : Str} {meth : Opt
   | requestPath p' => simp [hsm] at h
   | aliasRedirect r' v' =>
     simp only [hsm] at h
-    split at h <;> cases h
+    split at h
+    · cases h
+    · rename_i u _
+      rcases aliasOutcome_cases (if (effQa a qa).truthy = true then u ++ '?' :: encodeQueryArgs (effQa a qa) else u)
+        (domainPartOf m.cfg a) (pathPart p) with hh | hh <;> rw [hh] at h <;> cases h
   | noMatch ms wsm =>
     simp only [hsm] at h
     split at h
@@ -153,7 +168,11 @@ theorem matchAdapter_405_inv {m : RMap} {a : Adapter} {p : Str} {meth : Option S
   | requestPath p' => simp [hsm] at h
   | aliasRedirect r' v' =>
     simp only [hsm] at h
-    split at h <;> cases h
+    split at h
+    · cases h
+    · rename_i u _
+      rcases aliasOutcome_cases (if (effQa a qa).truthy = true then u ++ '?' :: encodeQueryArgs (effQa a qa) else u)
+        (domainPartOf m.cfg a) (pathPart p) with hh | hh <;> rw [hh] at h <;> cases h
   | noMatch ms0 wsm =>
     simp only [hsm] at h
     split at h
